@@ -29,6 +29,7 @@ ASSUMPTIONS = [
     'sharing memory is not itself a violation, only an observable change is',
     'objects returned by accessors are not mutated by the harness',
 ]
+ANCHORS = ['Table.copy', 'Table.filter', 'Table.transform', 'Table.subsample', 'Table._get_sparse_data']
 REQUIRED = ['noninplace_calls', 'inplace_equivalence_checked',
             'isolation_batteries', 'fault_injections', 'layout_csc_seen',
             'layout_unsorted_seen', 'args_tables_checked',
